@@ -7,20 +7,28 @@ HERE = os.path.dirname(os.path.abspath(__file__))
 DRIVER = os.path.join(HERE, '..', 'driver', 'driver')
 
 
+def _run_chunk(part):
+    text = '\n'.join(sx.dumps(r) for r in part) + '\n'
+    p = subprocess.run([DRIVER], input=text.encode('utf-8'), stdout=subprocess.PIPE, stderr=subprocess.PIPE)
+    if p.returncode != 0:
+        raise RuntimeError('driver failed: %s' % p.stderr.decode()[:500])
+    lines = [l for l in p.stdout.decode('utf-8').split('\n') if l.strip()]
+    if len(lines) != len(part):
+        raise RuntimeError('driver returned %d replies for %d requests' % (len(lines), len(part)))
+    return [sx.loads(l) for l in lines]
+
+
 def run_requests(reqs, chunk=400):
-    """reqs: list of s-expression values; returns the list of parsed replies"""
-    out = []
-    for i in range(0, len(reqs), chunk):
-        text = '\n'.join(sx.dumps(r) for r in reqs[i:i + chunk]) + '\n'
-        p = subprocess.run([DRIVER], input=text.encode('utf-8'), stdout=subprocess.PIPE, stderr=subprocess.PIPE)
-        if p.returncode != 0:
-            raise RuntimeError('driver failed: %s' % p.stderr.decode()[:500])
-        lines = p.stdout.decode('utf-8').split('\n')
-        lines = [l for l in lines if l.strip()]
-        if len(lines) != len(reqs[i:i + chunk]):
-            raise RuntimeError('driver returned %d replies for %d requests' % (len(lines), len(reqs[i:i + chunk])))
-        out.extend(sx.loads(l) for l in lines)
-    return out
+    """reqs: list of s-expression values; returns the list of parsed replies (driver processes run in parallel)"""
+    from concurrent.futures import ThreadPoolExecutor
+    if not reqs:
+        return []
+    workers = int(os.environ.get('VERIF_JOBS', '16'))
+    size = max(1, min(chunk, (len(reqs) + workers - 1) // workers))
+    parts = [reqs[i:i + size] for i in range(0, len(reqs), size)]
+    with ThreadPoolExecutor(max_workers=workers) as ex:
+        results = list(ex.map(_run_chunk, parts))
+    return [r for part in results for r in part]
 
 
 def load_req(case):
